@@ -151,6 +151,7 @@ type endpoint struct {
 	endRecv  map[uint32]bool
 	pos      int  // ops of the current phase completed by the script sender
 	done     bool // script sender finished the current phase
+	hold     bool // script sender paused by the peer's controller (gated grant)
 	barrier  map[[8]byte]bool
 	nBarrier int
 	frames   int64
@@ -193,6 +194,11 @@ type Session struct {
 	BytesCompared                                 int64
 	ProxyLeaked                                   bool
 	hookOn                                        int32
+	gate                                          atomic.Value // chan struct{}: non-nil while the writer gate is closed
+	gateMu                                        sync.Mutex
+	gateCh                                        chan struct{}
+	gateDead                                      bool
+	GatedGrants                                   int
 	hookN                                         int64
 	setupDone                                     bool
 	Foreign                                       []Finding
@@ -532,6 +538,7 @@ func (s *Session) teardown(tc *tls.Conn) {
 	s.failed = true
 	s.bump()
 	s.mu.Unlock()
+	s.openGate(true)
 	atomic.StoreInt32(&s.hookOn, 0)
 	close(s.closing)
 	s.pipeA.Close()
